@@ -39,6 +39,10 @@ add("C09", "runtime monitoring: boundary monitors on the LC-equivalence decision
     "Every ordered pair of labelled graphs on <=4 (thorough <=5: 1.05 million) vertices plus sampled pairs on 6..9 vertices with known truth goes through is_lc_equivalent (both modes); each 'yes' is followed through local_clifford_ops, find_lc_operations, converter_gate_list, lc_check (graph / stabilizer / Clifford tableau inputs), Graph.lc_equivalent and state_converter_circuit, whose gate lists and complementation sequences are replayed by the oracle; local complementation itself is checked for the toggling rule and involution.",
     TRUST + "For n>=7 'inequivalent' is asserted only when a cut-rank invariant differs.", "DESIGN.md section 5, C09")
 
+add("C16", "runtime monitoring: boundary monitors on relabel / get_relabel_map / iso_finder / the LC-orbit explorers plus a sys.monitoring probe on local_comp_graph recording every complementation applied; brute-force isomorphism and exhaustive-orbit oracles",
+    "Generated graphs on 2..9 vertices x permutations x (n_iso, thresholds, seeds, flags) x orbit method and depth are pushed through the real functions; every returned matrix is checked for isomorphism with the input, distinctness, count and position, every returned orbit graph for membership in the exhaustive LC orbit (n<=6) or in the chain of complementations the probe observed (each step checked).",
+    TRUST + "VF2 (networkx) decides isomorphism above 7 vertices.", "DESIGN.md section 5, C16")
+
 NOT_YET = {
 }
 
